@@ -330,7 +330,8 @@ def check(model, tier):
             ok_sort = ok_key and ok_rev
             rows_name = src(c.func.value) if isinstance(c.func, ast.Attribute) else ""
             v = p.value
-            ok_sort = ok_sort and isinstance(v, ast.Call) and v.args and src(v.args[0]) == rows_name
+            v_args = (list(v.args) + [k.value for k in v.keywords if k.arg]) if isinstance(v, ast.Call) else []
+            ok_sort = ok_sort and bool(v_args) and src(v_args[0]) == rows_name
         if ok_sort:
             run.ok("R01.5", "sort:stable-pass")
         else:
@@ -393,14 +394,17 @@ def check(model, tier):
     optional_rules.r_optional_truthiness(ctx, "R01.12", None, ("iteration/", "_operations/", "_relation.py", "_unary_operation.py"))
     from ..rules import purity
 
-    purity.r_engine_stateless(ctx, "R01.14", IT_ENGINE, ("execute", "convert_column_expression", "convert_predicate", "append_unary", "append_binary"))
+    purity.r_engine_stateless(ctx, "R01.16", IT_ENGINE, ("execute", "convert_column_expression", "convert_predicate", "append_unary", "append_binary"))
     run.assume("max_rows == 0 / is_join_identity short-circuits rely on truthful bounds (C06)")
     from ..rules import bounds as _bounds
 
-    _bounds.r06_7_bound_formulas(ctx, rule="R01.15")
+    _bounds.r06_7_bound_formulas(ctx, rule="R01.17")
     # reordering between two iteration engines (preferred_engine) must not change rows: the C04 commutation rules
     from ..rules import commute as _commute
 
+    from ..rules import mergeeval as _mergeeval
+
+    _mergeeval.r05_9_merge_semantics(ctx, rule="R01.18")
     _commute.r04_1_matrix(ctx)
     _commute.r04_2_failure_hands_back(ctx)
     _commute.r04_4_set_formulas(ctx)
